@@ -527,3 +527,6 @@ func Enumerate[C any](t *testing.T, p Prop[C], next func() (C, bool)) int {
 		}
 	}
 }
+
+// ReplayRaw executes a property on a JSON-encoded case (used by native fuzz targets).
+func ReplayRaw(p AnyProp, raw []byte) Outcome { return p.replay(raw) }
